@@ -26,6 +26,7 @@ void     vp_free_now(void * p);
 int      vp_mutex_held(const void * m);
 int      vp_threads_alive(void);
 void     vp_yield(void);
+void     vp_sched_point(const char * tag);   // native replay: sleeps here when $VP_DELAY_AT names the tag; symbolic: no effect
 uint64_t vp_notified(const void * cv);    // number of notify calls on that condition variable so far
 void     vp_concolic_stop(void);          // end of the witness-guided prefix (C02)
 uint64_t vp_concrete(uint64_t v);        // fork: one path per feasible value
